@@ -20,7 +20,7 @@ use std::time::Duration;
 fn main() {
     std::panic::set_hook(Box::new(|_| {}));
     let stack: usize = std::env::var("VERIF_ZF_STACK").ok().and_then(|s| s.parse().ok()).unwrap_or(2 << 20);
-    let watchdog: u64 = std::env::var("VERIF_ZF_WATCHDOG").ok().and_then(|s| s.parse().ok()).unwrap_or(60);
+    let watchdog: u64 = std::env::var("VERIF_ZF_WATCHDOG").ok().and_then(|s| s.parse().ok()).unwrap_or(300);
     let stdin = std::io::stdin();
     let stdout = std::io::stdout();
     let mut out = stdout.lock();
